@@ -117,7 +117,7 @@ func c37(c *hx.Ctx) {
 		{
 			name: "dialTptAddr", ctor: "EqDial", mk: "mk_dialTptAddr",
 			// backoff is the one parameter that does not decide what is dialed
-			axes: []axis{{"address", []any{dopts{true, ""}, dopts{false, ""}, dopts{false, "t|a"}, dopts{false, "t|b"}}, true}, {"backoff", []any{0, 1}, false}, {"src", P, true}, {"dest", P, true}},
+			axes: []axis{{"address", []any{dopts{true, ""}, dopts{false, ""}, dopts{false, "udp|127.0.0.1:5000"}, dopts{false, "ws|127.0.0.1:5000"}, dopts{false, "udp|127.0.0.1:5001"}, dopts{false, "udp|127.0.0.2:5000"}, dopts{false, "127.0.0.1:5000"}, dopts{false, "udp|ws|127.0.0.1:5000"}}, true}, {"backoff", []any{0, 1}, false}, {"src", P, true}, {"dest", P, true}},
 			build: func(v []any) directive.Directive {
 				o := v[0].(dopts)
 				var opts *dialer.DialerOpts
@@ -170,7 +170,7 @@ func c37(c *hx.Ctx) {
 		},
 		{
 			name: "lookupHTTPHandler", ctor: "EqHttp", mk: "mk_lookupHTTPHandler",
-			axes: []axis{{"handlerMethod", []any{"", "GET", "POST"}, true}, {"handlerURL", []any{"/a", "/b", "http://h/a", "/a?q=1", "/a/"}, true}, {"clientID", []any{"", "c1"}, true}},
+			axes: []axis{{"handlerMethod", []any{"", "GET", "POST"}, true}, {"handlerURL", []any{"/a", "/b", "http://h/a", "https://h/a", "http://g/a", "http://h:81/a", "http://u@h/a", "/a?q=1", "/a?q=2", "/a/", "/a#f"}, true}, {"clientID", []any{"", "c1"}, true}},
 			build: func(v []any) directive.Directive {
 				return bifrost_http.NewLookupHTTPHandler(v[0].(string), mustURL(v[1].(string)), v[2].(string))
 			},
@@ -181,7 +181,7 @@ func c37(c *hx.Ctx) {
 		},
 		{
 			name: "signalPeer", ctor: "EqSignal", mk: "mk_signalPeer",
-			axes: []axis{{"signalingID", []any{"", "s1", "s2"}, true}, {"localPeerID", P, true}, {"remotePeerID", P, true}},
+			axes: []axis{{"signalingID", []any{"", "s1", "s2", "s1 "}, true}, {"localPeerID", P, true}, {"remotePeerID", P, true}},
 			build: func(v []any) directive.Directive {
 				return signaling.NewSignalPeer(v[0].(string), v[1].(peer.ID), v[2].(peer.ID))
 			},
